@@ -362,3 +362,5 @@ Print Assumptions C06_all_modes_dynamic_spec_2d.
 Print Assumptions C06_all_modes_zero_steps_2d.
 Print Assumptions C06_all_modes_until_fixed_point_halts_2d.
 Print Assumptions C06_all_modes_until_fixed_point_sound_2d.
+From CPL Require Import gen.GenFuns GenProps.C06Src. (* source tie: gen/GenFuns.v is regenerated from ca_functions.py on every run *)
+Theorem C06_source_tie : forall (C : Type) (eqb : C -> C -> bool) (states : list C) (t : nat), src_until_fixed_point_timesteps eqb states = Ok (snd (until_fixed_point eqb tt states t)). Proof. exact C06_source_translation_agrees. Qed. Print Assumptions C06_source_tie.
